@@ -268,6 +268,48 @@ func TestProp(t *testing.T) {
 				return
 			}
 		}
+		// a package that cannot be generated, named in the same invocation: the run fails, and what it leaves
+		// behind (which derived files exist, their bytes, the exit code) is the same every time
+		withBad := map[string]string{}
+		for k, v := range pr.files {
+			withBad[k] = v
+		}
+		bad := "package %s\n\nfunc u(a, b chan int) bool {\n\treturn deriveEqual(a, b)\n}\n"
+		withBad["abad/bad.go"] = fmt.Sprintf(bad, "abad")
+		withBad["zbad/bad.go"] = fmt.Sprintf(bad, "zbad")
+		outcomes := map[string]int{}
+		first := ""
+		for i := 0; i < repeats; i++ {
+			dir := c.CaseDir()
+			gorun.WriteFiles(dir, withBad)
+			res := gorun.RunGoderive(dir, "./...")
+			c.Rep.AddExtra("goderive_runs", 1)
+			if res.Err != nil || res.TimedOut {
+				os.RemoveAll(dir)
+				c.Rep.Inconcl("failing-neighbour run did not run")
+				return
+			}
+			o := fmt.Sprintf("exit=%d", res.Exit)
+			for _, pk := range []string{"p", "q", "abad", "zbad"} {
+				b, err := os.ReadFile(filepath.Join(dir, pk, gorun.DerivedFile))
+				if err != nil {
+					o += " " + pk + ":absent"
+				} else {
+					o += " " + pk + ":" + gorun.Sha(b, 8)
+				}
+			}
+			os.RemoveAll(dir)
+			outcomes[o]++
+			if first == "" {
+				first = o
+			}
+			if o != first {
+				c.Fail(rt, map[string]string{"check": "failing-run-outcome"},
+					fmt.Sprintf("goderive ./... over p, q and two packages that cannot be generated leaves different files behind on identical runs:\n  %s\n  %s", first, o), withBad, nil)
+				return
+			}
+		}
+		c.Rep.Class("failing-neighbour-runs")
 	})
 }
 
